@@ -356,6 +356,18 @@ def mode_regions(ctx, fn: FuncInfo):
 def modes_agree(ctx, fn: FuncInfo) -> tuple[bool, str]:
     """The two modes differ only by a write-only region executed when DRY is false."""
     real_only, dry_only, real_returns = mode_regions(ctx, fn)
+    # the same plain binding made on both sides (`result = change_set` in the `if dry: ... else: write; ...` form an inlined early
+    # return takes) is common to the two modes, not a difference between them
+    def twin_key(st):
+        if isinstance(st, ast.Assign) and len(st.targets) == 1 and isinstance(st.targets[0], ast.Name) and isinstance(st.value, (ast.Name, ast.Constant)):
+            return unparse(st)
+        return None
+
+    dry_keys = [twin_key(st) for st in dry_only]
+    common = {k for k in (twin_key(st) for st in real_only) if k is not None and k in dry_keys}
+    if common:
+        real_only = [st for st in real_only if twin_key(st) not in common]
+        dry_only = [st for st in dry_only if twin_key(st) not in common]
     if not real_only and not dry_only:
         return True, ""
     reg = Region(ctx, fn, real_only)
